@@ -39,14 +39,11 @@ func KeyFrom(r *rng.R, universe [][]byte) []byte { return universe[r.Intn(len(un
 func Universe(r *rng.R, n, maxLen int) [][]byte {
 	seen := map[string]bool{}
 	var u [][]byte
-	for len(u) < n {
+	for tries := 0; len(u) < n && tries < 8*n+16; tries++ {
 		k := Key(r, maxLen)
 		if !seen[string(k)] {
 			seen[string(k)] = true
 			u = append(u, k)
-		}
-		if len(seen) > 4*n {
-			break
 		}
 	}
 	return u
@@ -216,7 +213,6 @@ func (o Opts) Options() *opt.Options {
 	return oo
 }
 
-func (o Opts) String() string { return fmt.Sprintf("%+v", struct{ Opts }{o}) }
 
 // Hex renders bytes for replays ("-" for empty), like the Lean driver's fields.
 func Hex(b []byte) string {
